@@ -81,6 +81,7 @@ def run(ctx: Ctx, rep: Report) -> None:
         if not cnodes or not wcfg.must_pass(wcfg.entry, [wcfg.exit], cnodes):
             break
         dec = reg.nested[next(iter(targets))]
+    dec = ctx.inlined(dec)  # a local helper of the listener (dispatch(trap)) that calls the user's callback is looked into
     packet = dec.params[0]
     user_cb = reg.params[0]
     creds_param = "credentials" if "credentials" in reg.params else None
@@ -245,6 +246,18 @@ def run(ctx: Ctx, rep: Report) -> None:
         par = getattr(scheds[0], "_parent", None)
         schedulers = ("asyncio.ensure_future", "ensure_future", "asyncio.create_task", "loop.create_task", "asyncio.run_coroutine_threadsafe")
         wrapper_ok = isinstance(par, ast.Call) and norm(par.func) in schedulers
+
+        def is_scheduler(n: ast.AST) -> bool:
+            return isinstance(n, ast.Call) and (norm(n.func) in schedulers or (isinstance(n.func, ast.Attribute) and n.func.attr in ("create_task", "ensure_future", "run_coroutine_threadsafe")))
+
+        if not wrapper_ok and isinstance(par, ast.Assign) and len(par.targets) == 1 and isinstance(par.targets[0], ast.Name):
+            # outcome = callback(trap); then every path hands it to a scheduler (create_task for coroutines, ensure_future otherwise)
+            oname = par.targets[0].id
+            snodes2 = [cfg_node_of(cfg, n) for n in own_nodes(dec.node) if is_scheduler(n) and n.args and isinstance(n.args[0], ast.Name) and n.args[0].id == oname]
+            snodes2 = [n for n in snodes2 if n is not None]
+            cnode = cfg_node_of(cfg, scheds[0])
+            single_def = len(ctx.defs(dec).all_values(oname)) == 1
+            wrapper_ok = bool(snodes2) and cnode is not None and single_def and cfg.must_pass(cnode, [cfg.exit], snodes2)
         if not wrapper_ok and isinstance(par, ast.Call):
             # handed to a helper of the repository that schedules its argument on every path
             for helper in [c for c in ctx.r.callees(dec, par) if isinstance(c, FuncInfo) and not c.module.external]:
